@@ -4,6 +4,7 @@ import (
 	"net/http"
 
 	"github.com/safing/portbase/config"
+	"github.com/safing/portbase/modules"
 )
 
 var verifSimInitDone bool
@@ -63,3 +64,9 @@ func VerifSimHandler() http.Handler { return &mainHandler{mux: mainMux} }
 
 // VerifSimBridgeAddr is the remote address that marks bridge requests.
 const VerifSimBridgeAddr = endpointBridgeRemoteAddress
+
+// VerifSimStartWebsocket is the handler behind /api/database/v1 (authentication is the router's business, C12).
+func VerifSimStartWebsocket(w http.ResponseWriter, r *http.Request) { startDatabaseWebsocketAPI(w, r) }
+
+// VerifSimModule returns the module of the package.
+func VerifSimModule() *modules.Module { return module }
